@@ -14,19 +14,29 @@
 #endif
 #define CAPM 24
 
-struct CB : public Server::Client::ICallback
-{
-  unsigned reads, writes, closed;
-  CB() : reads(0), writes(0), closed(0) {}
-  virtual void onRead() { ++reads; }
-  virtual void onWrite() { ++writes; }
-  virtual void onClosed() { ++closed; }
-};
-
 typedef Server::Private::ClientImpl ClientImpl;
 
 static byte g_accepted[CAPM]; static unsigned g_nacc;
 static byte g_peer[CAPM]; static unsigned g_npeer;
+
+struct CB : public Server::Client::ICallback
+{
+  unsigned reads, writes, closed; ClientImpl* client; unsigned writeInOnWrite; bool writeFailed;
+  CB() : reads(0), writes(0), closed(0), client(0), writeInOnWrite(0), writeFailed(false) {}
+  virtual void onRead() { ++reads; }
+  virtual void onWrite()
+  {
+    ++writes;
+    if(writeInOnWrite)
+    { // the application continues its stream from inside the notification (may again leave a backlog)
+      unsigned n = writeInOnWrite; writeInOnWrite = 0;
+      byte d[4]; for(unsigned i = 0; i < n; ++i) d[i] = vf_u8();
+      if(client->write(d, n)) { for(unsigned i = 0; i < n; ++i) { vf_assert(g_nacc < CAPM, "model capacity"); g_accepted[g_nacc++] = d[i]; } }
+      else writeFailed = true;
+    }
+  }
+  virtual void onClosed() { ++closed; }
+};
 
 static void drainPeer(Socket& other)
 {
@@ -67,7 +77,7 @@ extern "C" int write_path()
     Server::Private p; Socket other; CB cb;
     Server::Client* cl = p.pair(cb, other);
     vf_assert(cl != 0, "pair");
-    ClientImpl& c = *(ClientImpl*)cl;
+    ClientImpl& c = *(ClientImpl*)cl; cb.client = &c;
     int fd = (int)c.getFileDescriptor();
     bool closing = false;
     checkAll(p, c, other, cb);
@@ -91,11 +101,15 @@ extern "C" int write_path()
       case 3: c.resume(); vf_assert(!c._suspended, "resumed"); break;
       case 4: { // one loop round with the socket writable: the backlog is pushed out
         unsigned backlog = g_nacc - g_npeer; unsigned w0 = cb.writes;
+        cb.writeInOnWrite = backlog ? vf_pick(VF_WN + 1) : 0;      // what the application does inside onWrite
+        bool wroteInside = cb.writeInOnWrite != 0; unsigned accBefore = g_nacc;
         vf_net_writable(fd); p.interrupt(); p.run();
         p.interrupt(); p.run();           // a second pass dispatches what the first one buffered
         drainPeer(other);
-        if(cb.closed) { closing = true; break; }
-        if(backlog && g_nacc == g_npeer) vf_assert(cb.writes == w0 + 1, "onWrite delivered once when the backlog has drained");
+        if(cb.closed || cb.writeFailed) { closing = true; break; }
+        cb.writeInOnWrite = 0;
+        if(backlog && g_nacc == g_npeer && !wroteInside) vf_assert(cb.writes == w0 + 1, "onWrite delivered once when the backlog has drained");
+        if(wroteInside && g_nacc != accBefore) vf_assert(cb.writes >= w0 + 1, "onWrite was delivered (the write inside it happened)");
         if(!backlog) vf_assert(cb.writes == w0, "no onWrite without a backlog");
         break; }
       case 5: { // data arrives for the client: read notification unless suspended
